@@ -38,6 +38,31 @@ type line struct {
 	RExportEq bool   `json:"rexport_eq"`
 	OpensAll  bool   `json:"opens_all"` // honest receiver: later ciphertexts still open after a rejected (altered / wrong-aad) one
 	Note      string `json:"note"`
+	// inputs and outputs of a base / PSK mode sender setup of DHKEM(X25519, HKDF-SHA256) + HKDF-SHA256, for spec/C07/HpkeJob.tla
+	Job *hpkeJob `json:"job,omitempty"`
+}
+
+type hpkeJob struct {
+	Mode      int   `json:"mode"`
+	Aead      int   `json:"aead"`
+	Nk        int   `json:"nk"`
+	IkmE      []int `json:"ikmE"`
+	PkR       []int `json:"pkR"`
+	Info      []int `json:"info"`
+	Psk       []int `json:"psk"`
+	PskID     []int `json:"psk_id"`
+	Enc       []int `json:"enc"`
+	Key       []int `json:"key"`
+	BaseNonce []int `json:"base_nonce"`
+	Exp       []int `json:"exp"`
+}
+
+func jints(b []byte) []int {
+	o := make([]int, len(b))
+	for i := range b {
+		o[i] = int(b[i])
+	}
+	return o
 }
 
 func parseCtx(m []byte) (exp, key, base []byte, ok bool) {
@@ -193,6 +218,10 @@ func main() {
 							vlib.Die("context serialisation changed")
 						}
 						exp, key, base = append([]byte{}, exp...), append([]byte{}, key...), append([]byte{}, base...)
+						if int(kemID) == 0x20 && int(kdfID) == 1 && (mode == 0 || (mode == 1 && pskp == "both")) && dev == "none" {
+							ln.Job = &hpkeJob{Mode: mode, Aead: int(aeadID), Nk: len(key), IkmE: jints(v["ikmE"][:32]), PkR: jints(pkRb), Info: jints(v["info"]),
+								Psk: jints(psk), PskID: jints(pskID), Enc: jints(enc), Key: jints(key), BaseNonce: jints(base), Exp: jints(exp)}
+						}
 						ln.KeyEq = bytes.Equal(terms.Eval(ctxT["key"], env), key)
 						ln.NonceEq = bytes.Equal(terms.Eval(ctxT["base_nonce"], env), base)
 						ln.ExpEq = bytes.Equal(terms.Eval(ctxT["exp"], env), exp)
